@@ -149,9 +149,12 @@ func (d *dir) RepoGet(ctx context.Context, repoStr string) (Repo, error) {
 		log:     d.log,
 	}
 	uploadCacheOpts := cache.Opts[string, *dirRepoUpload]{
-		PruneFn:     func(_ string, dru *dirRepoUpload) error { return dru.delete() },
-		PrunePreFn:  func(_ string, dru *dirRepoUpload) { dru.mu.Lock() },
-		PrunePostFn: func(_ string, dru *dirRepoUpload) { dru.mu.Unlock() },
+		// the upload is locked after the cache, methods of the upload must not call the cache while holding the upload lock
+		PruneFn: func(_ string, dru *dirRepoUpload) error {
+			dru.mu.Lock()
+			defer dru.mu.Unlock()
+			return dru.delete()
+		},
 	}
 	if d.conf.Storage.GC.RepoUploadMax > 0 {
 		uploadCacheOpts.Count = d.conf.Storage.GC.RepoUploadMax
@@ -723,14 +726,15 @@ func (dr *dirRepo) gc() error {
 
 // Write is used to push content into the blob.
 func (dru *dirRepoUpload) Write(p []byte) (int, error) {
+	// verify session still exists and update last write time
+	// this is done before locking the upload, pruning the cache locks the upload while the cache is locked
+	if _, err := dru.dr.uploads.Get(dru.sessionID); err != nil {
+		return 0, fmt.Errorf("session expired %s: %w", dru.sessionID, err)
+	}
 	dru.mu.Lock()
 	defer dru.mu.Unlock()
 	if dru.w == nil {
 		return 0, fmt.Errorf("writer is closed")
-	}
-	// verify session still exists and update last write time
-	if _, err := dru.dr.uploads.Get(dru.sessionID); err != nil {
-		return 0, fmt.Errorf("session expired %s: %w", dru.sessionID, err)
 	}
 	n, err := dru.w.Write(p)
 	dru.size += int64(n)
@@ -740,7 +744,12 @@ func (dru *dirRepoUpload) Write(p []byte) (int, error) {
 // Close finishes an upload, verifying digest if requested, and moves it into the blob store.
 func (dru *dirRepoUpload) Close() error {
 	dru.mu.Lock()
-	defer dru.mu.Unlock()
+	locked := true
+	defer func() {
+		if locked {
+			dru.mu.Unlock()
+		}
+	}()
 	err := dru.fh.Close()
 	if err != nil {
 		return errors.Join(err, os.Remove(dru.filename))
@@ -764,16 +773,20 @@ func (dru *dirRepoUpload) Close() error {
 				os.Remove(dru.filename))
 		}
 	}
-	blobName := filepath.Join(tgtDir, dru.d.Digest().Encoded())
-	err = errors.Join(os.Rename(dru.filename, blobName), dru.dr.uploads.Delete(dru.sessionID))
-	dru.dr.log.Debug("blob created", "repo", dru.dr.name, "digest", dru.d.Digest().String(), "err", err)
+	dig := dru.d.Digest()
+	blobName := filepath.Join(tgtDir, dig.Encoded())
+	err = os.Rename(dru.filename, blobName)
+	// the session is removed after releasing the upload, deleting from the cache locks the upload
+	dru.mu.Unlock()
+	locked = false
+	err = errors.Join(err, dru.dr.uploads.Delete(dru.sessionID))
+	dru.dr.log.Debug("blob created", "repo", dru.dr.name, "digest", dig.String(), "err", err)
 	return err
 }
 
 // Cancel is used to stop an upload.
 func (dru *dirRepoUpload) Cancel() error {
-	dru.mu.Lock()
-	defer dru.mu.Unlock()
+	// deleting from the cache locks the upload
 	return dru.dr.uploads.Delete(dru.sessionID)
 }
 
